@@ -222,6 +222,25 @@ func (st *c07state) libFacts(x *core.Explorer, ev *core.Event) {
 	case "(*bytes.Buffer).Len":
 		x.AssumeGE(res, 0)
 	}
+	// library preconditions: big-endian accessors need 2 / 8 bytes
+	need := map[string]int64{"(encoding/binary.bigEndian).Uint16": 2, "(encoding/binary.bigEndian).Uint64": 8, "(encoding/binary.bigEndian).Uint32": 4,
+		"(encoding/binary.bigEndian).PutUint16": 2, "(encoding/binary.bigEndian).PutUint64": 8, "(encoding/binary.bigEndian).PutUint32": 4}
+	if n, ok := need[name]; ok && len(ev.Args) >= 2 && st.sites != nil {
+		buf := ev.Args[1]
+		s := st.sites[ev.Instr]
+		if s == nil {
+			s = &c07site{fn: ev.Fn, in: ev.Instr, proven: true, kind: "precondition", key: "call " + name + "(" + stableKey(buf) + ")"}
+			st.sites[ev.Instr] = s
+		}
+		s.visited++
+		if lo, has := x.Lower(x.Len(buf)); !(has && lo >= n) {
+			s.unproven++
+			if s.proven {
+				s.proven = false
+				s.failWhy = fmt.Sprintf("%s needs %d bytes but len(%s) is not known to be >= %d", name, n, buf, n)
+			}
+		}
+	}
 	// in-package summary: (*Conn).read(n) returns at most n bytes
 	if ev.Static == st.read {
 		x.AssumeLEq(x.Len(ext(0)), ev.Args[1])
